@@ -208,5 +208,6 @@ func runC15(r *core.Run) (bool, string) {
 			r.Count("short_buffer_refusals_observed", 1)
 		}
 	}
-	return r.Evals() > 1000 && r.GetCount("short_buffer_refusals_observed") > 10, "too few encoding cases evaluated"
+	c15Concurrent(r)
+	return r.Evals() > 1000 && r.GetCount("short_buffer_refusals_observed") > 10 && r.GetCount("concurrent_calls_plain") > 100000, "too few encoding cases evaluated"
 }
